@@ -15,6 +15,7 @@ is C16, their consistency across blocks is checked here).
 from __future__ import annotations
 
 import math
+import os
 from collections import Counter
 
 import shim  # noqa: F401
@@ -50,7 +51,9 @@ TRUSTED = [
 ]
 ASSUMPTIONS = [
     "n_timeSteps >= 2 for the property clauses (n_timeSteps = 1 divides by zero in the code and in the model)",
-    "tables are compared as multisets of rows; values and times bit for bit",
+    "tables are compared as multisets of rows (the property does not fix a row order); values and times bit for bit",
+    "a case counts as non-trivial only with enough distinct finite numbers in its tables to pin vial/block alignment; "
+    "the vials a group argument selects are taken from the group model (Groups.lean / C16), and the code's own getVialGroup is cross-checked against it",
 ]
 RULE = ("shapes up to 3x3x1 and 2x2x2, run lengths ncols in {1, 2, n-2, n-1, n, 10n} for n_timeSteps in {2,3,4,250}, "
         "dt in {1, 2.0, 0.5} and dt = 0.1 (arange rounding), recorded subsets (all / group / index lists / none); "
@@ -165,33 +168,71 @@ def _traj_obs(tdf):
 ACCESSORS = {"tnuc": "nucleationTimes", "Tnuc": "nucleationTemperatures", "tsol": "solidificationTimes"}
 
 
-def _fall(case):
+def _arr_config(arr):
+    """custom YAML selecting the vial arrangement (written under .cache/, git-ignored)"""
+    if not arr:
+        return None
+    d = core.VERIF / ".cache" / "c17"
+    d.mkdir(parents=True, exist_ok=True)
+    p = d / f"{arr}.yaml"
+    text = f"snowfall_parameters:\n  vial_arrangement: {arr}\n"
+    if not p.exists() or p.read_text() != text:
+        tmp = d / f"{arr}.{os.getpid()}.tmp"
+        tmp.write_text(text)
+        os.replace(tmp, p)
+    return str(p)
+
+
+_sync_patched = [False]
+
+
+def _slow_seed0():
+    """schedule control for `sync` runs: the task with seed 0 is delayed, so that with more than one worker the
+    repetitions complete OUT OF SEED ORDER (the shared dict is then filled in completion order).  Harness process
+    only; inherited by the forked workers."""
+    if _sync_patched[0]:
+        return
+    _sync_patched[0] = True
+    import time
     from ethz_snow.snowfall import Snowfall
 
-    F = Snowfall(Nrep=case["nrep"], pool_size=case["pool"], k=dict(K), N_vials=tuple(case["nv"]), dt=case["dt"],
-                 opcond=_opcond((case["ncols"] - 1) * case["dt"]))
-    obs = {}
-    if case.get("norun"):
-        try:
-            F.to_frame()
-            obs["frame"] = "ok"
-        except Exception as e:
-            obs["frame"] = {"raise": core.exc_class(e)}
-        return obs
-    F.run(how=case["how"])
-    obs["N"] = F.Sf_template.N_vials_total
-    obs["statsList"] = [_stats_obs(F.stats[i]) for i in range(case["nrep"])]
-    try:
-        df = F.to_frame()
-    except Exception as e:
-        obs["frame"] = {"raise": core.exc_class(e)}
-        return obs
-    obs["frame"] = "ok"
-    obs["cols"] = [str(c) for c in df.columns]
-    obs["rows"] = [[str(g), int(v), str(var), _b(val), int(s)]
-                   for g, v, var, val, s in zip(df["group"], df["vial"], df["variable"], df["value"], df["seed"])]
+    orig = Snowfall._uniqueFlake_sync.__func__
+
+    def slow(cls, S, seed, return_dict):
+        if seed == 0:
+            time.sleep(0.25)
+        return orig(cls, S, seed, return_dict)
+
+    slow.__name__ = slow.__qualname__ = "_uniqueFlake_sync"
+    Snowfall._uniqueFlake_sync = classmethod(slow)
+
+
+def _mk_fall(case, arr):
+    from ethz_snow.snowfall import Snowfall
+
+    _slow_seed0()
+
+    kw = {"configPath": _arr_config(arr)} if arr else {}
+    return Snowfall(Nrep=case["nrep"], pool_size=case["pool"], k=dict(K), N_vials=tuple(case["nv"]), dt=case["dt"],
+                    opcond=_opcond((case["ncols"] - 1) * case["dt"]), **kw)
+
+
+_DRV = [None]
+
+
+def _model_groups(arr, nv, groups):
+    """vials selected by each group argument according to the GROUP MODEL (Groups.lean, property C16) - the
+    expectation for the accessors does not come from the code's own `getVialGroup`"""
+    if _DRV[0] is None:
+        _DRV[0] = core.Driver()
+    qs = [[g] if isinstance(g, str) else list(g) for g in groups]
+    r = _DRV[0].call({"op": "groups", "arr": arr or "square", "nx": nv[0], "ny": nv[1], "nz": nv[2], "queries": qs})
+    return r["masks"]
+
+
+def _ask(F, queries):
     ans, sels = [], []
-    for q in case["queries"]:
+    for q in queries:
         kw = {}
         tup = (lambda x: tuple(x) if q.get("tuple") and isinstance(x, list) else x)
         if q["groups"] != "all":
@@ -208,10 +249,52 @@ def _fall(case):
             ans.append([_b(x) for x in getattr(F, ACCESSORS[q["what"]])(**kw)])
         except Exception as e:
             ans.append({"raise": core.exc_class(e)})
-    obs["answers"] = ans
-    obs["vialsel"] = sels
+    return ans, sels
+
+
+def _fall(case):
+    if case.get("decoy_arr") and not case.get("norun"):
+        # ANOTHER Snowfall of this process: same shape, other vial arrangement, asked the same questions before
+        D = _mk_fall(case, case["decoy_arr"])
+        D.run(how="sequential")
+        _ask(D, case["queries"])
+    F = _mk_fall(case, case.get("arr"))
+    obs = {}
+    if case.get("norun"):
+        try:
+            F.to_frame()
+            obs["frame"] = "ok"
+        except Exception as e:
+            obs["frame"] = {"raise": core.exc_class(e)}
+        return obs
+    F.run(how=case["how"])
+    obs["N"] = F.Sf_template.N_vials_total
+    obs["key_order"] = [int(i) for i in F.stats]
+    obs["statsList"] = [_stats_obs(F.stats[i]) for i in range(case["nrep"])]
+    try:
+        df = F.to_frame()
+    except Exception as e:
+        obs["frame"] = {"raise": core.exc_class(e)}
+        return obs
+    obs["frame"] = "ok"
+    obs["cols"] = [str(c) for c in df.columns]
+    obs["rows"] = [[str(g), int(v), str(var), _b(val), int(s)]
+                   for g, v, var, val, s in zip(df["group"], df["vial"], df["variable"], df["value"], df["seed"])]
+    obs["answers"], obs["vialsel_code"] = _ask(F, case["queries"])
+    obs["vialsel"] = _sel_model(case, case.get("arr"))
     obs["template_clean"] = (F.Sf_template.stats == dict()) and F.Sf_template._simulationStatus == 0
+    if case.get("repoint"):
+        # the template is pointed to another arrangement: the same questions now select other vials
+        F.Sf_template.configPath = _arr_config(case["repoint"])
+        obs["answers2"], obs["vialsel2_code"] = _ask(F, case["queries"])
+        obs["vialsel2"] = _sel_model(case, case["repoint"])
     return obs
+
+
+def _sel_model(case, arr):
+    gs = [q["groups"] for q in case["queries"] if q["groups"] != "all"]
+    masks = iter(_model_groups(arr, case["nv"], gs)) if gs else iter([])
+    return [None if q["groups"] == "all" else next(masks) for q in case["queries"]]
 
 
 def _table_obs(df):
@@ -223,6 +306,7 @@ def _fallhist(case):
     """one Snowfall object: run, export, modify (Nrep / template dt / process time), run, export ..."""
     from ethz_snow.snowfall import Snowfall
 
+    _slow_seed0()
     F = Snowfall(Nrep=case["nrep"], pool_size=case["pool"], k=dict(K), N_vials=tuple(case["nv"]), dt=case["dt"],
                  opcond=_opcond((case["ncols"] - 1) * case["dt"]))
     obs = {"N": F.Sf_template.N_vials_total, "out": []}
@@ -421,6 +505,9 @@ def compare(case, impl, model):
             dis.append(d)
         if impl["cols"] != ["group", "vial", "variable", "value", "seed"]:
             dis.append(f"Snowfall table columns {impl['cols']}")
+        for q, sm, sc in zip(case["queries"], impl["vialsel"], impl["vialsel_code"]):
+            if sm != sc:
+                dis.append(f"group {q['groups']}: getVialGroup selects {sc}, the group model (C16) {sm}")
         for q, a, b, sel in zip(case["queries"], impl["answers"], r["answers"], impl["vialsel"]):
             if isinstance(sel, dict):
                 # the group argument is rejected by getVialGroup: the accessor must raise the same class
@@ -432,6 +519,19 @@ def compare(case, impl, model):
                 dis.append(f"accessor {q}: impl {len(a)} values vs model {len(b)} values")
         if not impl["template_clean"]:
             dis.append("Snowfall.to_frame left the template's stats / status modified")
+        if "answers2" in impl:
+            qs2 = [{"what": q["what"], **({} if not isinstance(sel, list) else {"vials": sel}),
+                    **({} if q["seeds"] is None else {"seeds": q["seeds"] if isinstance(q["seeds"], list) else [q["seeds"]]})}
+                   for q, sel in zip(case["queries"], impl["vialsel2"])]
+            r2 = drv.call({"op": "c17_fall", "labels": labels, "statsList": impl["statsList"], "queries": qs2})
+            for q, a, b, sel in zip(case["queries"], impl["answers2"], r2["answers"], impl["vialsel2"]):
+                if isinstance(sel, dict):
+                    if a != sel:
+                        dis.append(f"accessor {q} after re-pointing the template: getVialGroup raises {sel['raise']}, accessor does not")
+                elif isinstance(a, dict):
+                    dis.append(f"accessor {q} after re-pointing the template: impl raised {a['raise']}")
+                elif sorted(a) != sorted(b):
+                    dis.append(f"accessor {q} after re-pointing the template to {case['repoint']}: impl {len(a)} values vs model {len(b)} values")
     return dis
 
 
@@ -591,7 +691,11 @@ def predicates(case, impl):
                 break
         if ok:
             var = {"tnuc": "t_nucleation", "Tnuc": "T_nucleation", "tsol": "t_solidification"}
-            for q, a, sel in zip(case["queries"], impl["answers"], impl["vialsel"]):
+            rounds = list(zip(case["queries"], impl["answers"], impl["vialsel"], ["" for _ in case["queries"]]))
+            if "answers2" in impl:
+                rounds += list(zip(case["queries"], impl["answers2"], impl["vialsel2"],
+                                   [f" (template re-pointed to {case['repoint']})" for _ in case["queries"]]))
+            for q, a, sel, when in rounds:
                 if isinstance(sel, dict):
                     continue  # unknown group name: rejected by getVialGroup (C16's subject)
                 if isinstance(a, dict):
@@ -607,7 +711,8 @@ def predicates(case, impl):
                     want += [x for v, x in enumerate(vals) if sel is None or v in sel]
                 if sorted(want) != sorted(a):
                     out.append(Failure(clause="accessors_exact", key=f"accessors_exact|Snowfall.{ACCESSORS[q['what']]}|values",
-                                       detail=f"{q}: {len(a)} values returned, {len(want)} rows match"))
+                                       detail=f"{q}{when}: {len(a)} values returned, {len(want)} rows match the vials "
+                                              f"getVialGroup selects (arrangement {case.get('arr') or 'square'}, decoy {case.get('decoy_arr')})"))
     return out
 
 
@@ -630,11 +735,37 @@ def classify(case, impl):
         if isinstance(impl.get("frame"), dict):
             tags.append("to_frame raises " + impl["frame"]["raise"])
     else:
-        tags += [f"nrep={case['nrep']}", f"how={case['how']}"]
+        tags += [f"nrep={case['nrep']}", f"how={case['how']}", f"arr={case.get('arr') or 'square'}"]
+        if impl.get("key_order") and impl["key_order"] != sorted(impl["key_order"]):
+            tags.append("repetitions completed out of seed order")
+        if case.get("decoy_arr"):
+            tags.append(f"after a {case['decoy_arr']} Snowfall of the same shape")
+        if case.get("repoint"):
+            tags.append("template re-pointed")
     return tags
 
 
+def _finite(rows, col=3):
+    return {r[col] for r in rows if r[col] != NAN}
+
+
 def nontrivial(case, impl):
+    """a case counts only if its tables hold enough DISTINCT finite numbers to pin the alignment of vials and
+    blocks (all-NaN statistics of a run too short to nucleate would hide any permutation)"""
+    if impl.get("raise") or case.get("norun"):
+        return False
+    if case["kind"] == "fall":
+        return impl.get("frame") == "ok" and len(_finite(impl["rows"])) >= max(2, impl["N"] // 2)
+    if case["kind"] == "flake":
+        if impl.get("frame") != "ok":
+            return False
+        tr = impl.get("traj_rows") or []
+        temps = {(r[1], r[4]) for r in tr if r[2] == "temperature"}
+        return len(_finite(impl["stats_rows"])) >= 2 or len({t for _, t in temps}) >= 2
+    return _nontrivial_old(case, impl)
+
+
+def _nontrivial_old(case, impl):
     if case["kind"] == "fallhist":
         return not impl.get("raise") and any(o.get("rows") for o in impl["out"])
     if impl.get("raise") or case.get("norun") or impl.get("frame") != "ok":
@@ -722,12 +853,28 @@ def cases(rng, tier):
     yield dict(kind="flake", nv=[2, 2, 1], store="all", ncols=5, n=3, dt=1, norun=True)
     yield dict(kind="fall", nv=[2, 2, 1], nrep=2, pool=1, ncols=5, dt=1, how="sequential", queries=[], norun=True)
     yield from _fallhists(rng, quick)
+    # two Snowfall objects of one process with the same shape and different vial arrangements, asked the same
+    # questions; a template re-pointed to the other arrangement
+    gq = [dict(what=w, groups=g, seeds=None) for w, g in (("tnuc", "corner"), ("Tnuc", "edge"), ("tsol", "core"),
+                                                        ("tnuc", ["corner", "edge"]), ("tnuc", "side"))]
+    for nv in ([3, 3, 1], [4, 3, 1]) if quick else ([3, 3, 1], [4, 3, 1], [3, 4, 1], [5, 5, 1], [3, 3, 2]):
+        for arr, decoy in (("hexagonal", "square"), (None, "hexagonal"), ("hexagonal", None)):
+            yield dict(kind="fall", nv=nv, nrep=2, pool=2, ncols=60, dt=1, how=rng.choice(["sequential", "async"]),
+                       queries=gq, arr=arr, decoy_arr=decoy)
+        yield dict(kind="fall", nv=nv, nrep=2, pool=2, ncols=60, dt=1, how="sequential", queries=gq, arr=None,
+                   repoint="hexagonal")
+        yield dict(kind="fall", nv=nv, nrep=2, pool=2, ncols=60, dt=1, how="sequential", queries=gq, arr="hexagonal",
+                   repoint="square")
+    # sync runs with several workers (the repetitions complete out of seed order, see `_slow_seed0`)
+    for nrep, pool in ((2, 2), (3, 3), (5, 2), (4, 4)):
+        yield dict(kind="fall", nv=rng.choice([[2, 2, 1], [3, 3, 1]]), nrep=nrep, pool=pool, ncols=60, dt=1, how="sync",
+                   queries=_queries(rng, nrep, 4))
     # Snowfall tables and accessors
     for nrep in (1, 2, 5):
         for how in ("sequential", "async", "sync"):
             for _ in range(4 if quick else 16):
                 nv = rng.choice([[2, 2, 1], [3, 3, 1], [1, 3, 1], [3, 2, 1], [2, 2, 2], [1, 1, 1]])
-                yield dict(kind="fall", nv=nv, nrep=nrep, pool=rng.choice([1, 2, 3]), ncols=rng.choice([3, 60, 120]),
+                yield dict(kind="fall", nv=nv, nrep=nrep, pool=rng.choice([1, 2, 3]), ncols=rng.choice([40, 60, 120]),
                            dt=1, how=how, queries=_queries(rng, nrep, 6 if quick else 12))
 
 
